@@ -1242,6 +1242,39 @@ impl AsFd for RootRef<'_> {
     }
 }
 
+#[cfg(feature = "_verif_hooks")]
+impl Root {
+    /// Select the resolver backend (verification harness only).
+    pub fn verif_set_emulated(&mut self, emulated: bool) -> &mut Self {
+        use crate::resolvers::ResolverBackend;
+        self.resolver.backend = if emulated {
+            ResolverBackend::EmulatedOpath
+        } else {
+            ResolverBackend::KernelOpenat2
+        };
+        self
+    }
+
+    /// Is the emulated resolver backend selected (verification harness only)?
+    pub fn verif_is_emulated(&self) -> bool {
+        self.resolver.backend == crate::resolvers::ResolverBackend::EmulatedOpath
+    }
+}
+
+#[cfg(feature = "_verif_hooks")]
+impl RootRef<'_> {
+    /// Select the resolver backend (verification harness only).
+    pub fn verif_set_emulated(&mut self, emulated: bool) -> &mut Self {
+        use crate::resolvers::ResolverBackend;
+        self.resolver.backend = if emulated {
+            ResolverBackend::EmulatedOpath
+        } else {
+            ResolverBackend::KernelOpenat2
+        };
+        self
+    }
+}
+
 #[cfg(test)]
 mod tests {
     use crate::{resolvers::ResolverBackend, Root, RootRef};
